@@ -14,8 +14,12 @@ import (
 	"math/rand"
 	"os"
 	"path/filepath"
+	"runtime"
 	"syscall"
 	"time"
+
+	"github.com/whoisnian/glb/ansi"
+	"github.com/whoisnian/glb/logger"
 
 	"github.com/whoisnian/glb/util/osutil"
 	"verif/harness/internal/vio"
@@ -69,6 +73,44 @@ func main() {
 	rng := rand.New(rand.NewSource(vio.Seed()))
 	w := vio.Create(*out)
 	defer w.Close()
+	// the result line goes to a private duplicate of stdout
+	statsOut := os.Stdout
+	if fd, err := syscall.Dup(1); err == nil {
+		statsOut = os.NewFile(uintptr(fd), "stats")
+	}
+	// The rest of the program the copies are part of: it has asked whether its console is a terminal, it keeps writing to
+	// stderr, and - through a logger derived before a log rotation - to a log file that has been closed since.  None of that
+	// may end up in a copied file.
+	ansi.IsSupported(os.Stdout.Fd())
+	ansi.IsSupported(os.Stderr.Fd())
+	runtime.GC()
+	runtime.GC()
+	time.Sleep(20 * time.Millisecond)
+	stale := logger.New(logger.NewTextHandler(os.Stderr, logger.NewOptions(logger.LevelInfo, false, false)))
+	if lf, err := os.CreateTemp(*work, "app_log_"); err == nil {
+		stale = logger.New(logger.NewTextHandler(lf, logger.NewOptions(logger.LevelInfo, false, false))).With("component", "copier")
+		spare, _ := os.Open(os.DevNull)
+		lf.Close() // "rotated": the derived logger still holds the old file
+		if spare != nil {
+			spare.Close()
+		}
+		os.Remove(lf.Name())
+	}
+	stopAmbient := make(chan struct{})
+	defer close(stopAmbient)
+	go func() {
+		t := time.NewTicker(500 * time.Microsecond)
+		defer t.Stop()
+		for {
+			select {
+			case <-stopAmbient:
+				return
+			case <-t.C:
+				os.Stderr.WriteString("hb\n")
+				stale.Info("copy in progress")
+			}
+		}
+	}()
 	otherOK := dev(*other) != 0 && dev(*other) != dev(*work)
 	var scens []scenario
 	f, err := os.Open(*in)
@@ -321,7 +363,7 @@ func main() {
 		}
 	}
 	st, _ := json.Marshal(map[string]int{"runs": runs, "skipped_no_second_fs": skipped, "cross_fs_runs": crossfs, "scenarios": len(scens)})
-	fmt.Println(string(st))
+	fmt.Fprintln(statsOut, string(st))
 }
 
 func describe(b, src, dst []byte, err error) string {
